@@ -1,11 +1,12 @@
 #!/bin/bash
 # usage: tools/take_seeded.sh Cxx [extra-checks...]  — import round-2 variants C,D from /tmp/seedout_Cxx_r2, verify, clean up
 P=$1; shift
-for v in C D; do
-  S=/tmp/seedout_${P}_r2/$v
+R=${ROUND:-2}; case $R in 2) VS="C D";; 3) VS="E F";; esac
+for v in $VS; do
+  S=/tmp/seedout_${P}_r$R/$v
   [ -f $S/patch.diff ] || { echo "$P-$v missing"; continue; }
   mkdir -p /verif/seeded/$P-$v; cp $S/patch.diff $S/demo.py $S/meta.json /verif/seeded/$P-$v/
   echo "== $P-$v"; /verif/tools/verify_seeded.sh /verif/seeded/$P-$v | grep -E "demo on|exit=|PATCH"
   for c in "$@"; do /verif/tools/verify_seeded.sh /verif/seeded/$P-$v --checks "$c" | grep -E "exit=" | grep check; done
 done
-git -C /repo worktree remove --force /tmp/seedwt_${P}_r2 2>/dev/null; rm -rf /tmp/seedout_${P}_r2 /tmp/p2_$P.txt
+git -C /repo worktree remove --force /tmp/seedwt_${P}_r$R 2>/dev/null; rm -rf /tmp/seedout_${P}_r$R /tmp/p${R}_$P.txt
